@@ -54,4 +54,38 @@ PROPS = {
         "must_hit": ["preempt:future.delivered", "preempt:future.body-returned", "preempt:future.cancel.enter", "preempt:future.done-set", "wake:future.deref.ctx", "wake:future.deref.val", "wake:future.deref.err", "fault:creator-deadline"],
         "race": True, "race_share": 0.4,
     },
+    "C11": {
+        "level": "exploration",
+        "design_ref": "DESIGN.md §5.3",
+        "technique": "deterministic simulation: N programs on one environment under seeded schedules; solo-run refinement + leak probes + definition atomicity + race detector",
+        "level_text": "Seeded search over interleavings (preemption at any evaluation step, late future bodies, starvation) of 2-5 template programs plus a writer, readers "
+                      "and leak probes on one shared, library-preloaded environment. Each program's result and trace is compared with its solo run in an identically "
+                      "prepared fresh environment (refinement), probes check that no local name is visible at top level, readers check all-or-nothing monotone visibility "
+                      "of a redefined global, and the Go race detector runs on the same tapes for the no-data-race clause.",
+        "level_note": "Trusts the simulator and ThreadSanitizer; the solo run is the reference (it is the same interpreter); env critical sections are atomic in the simulation, their absence is a matter for the race oracle.",
+        "rule": "one run = one seeded tape: 2-5 programs of 2-5 fragments drawn from 33 templates (let, shadowing, tail/non-tail recursion under thread-specific global names, "
+                "closures over local atoms, own and library macros, memoize, try/catch, defs, derivation from shared vector/map/list/closure/macro, map/apply/reduce, futures, gensym), "
+                "same local names in every thread with thread-specific values; optional writer redefining g through 2-6 distinct structured values with 1-2 readers; optional prober "
+                "reading local names at top level. non-trivial = at least 2 tasks and at least 4 token switches; distinct = distinct hash of the (task, hook point) switch sequence",
+        "assumptions": COMMON_ASSUMPTIONS + ["generated programs never evaluate non-constant map literals (Go map iteration order)"],
+        "must_hit": ["preempt:step", "point:spawn", "wake:future.deref.val"],
+        "race": True, "race_share": 0.5,
+    },
+    "C02": {
+        "level": "exploration",
+        "design_ref": "DESIGN.md §5.5",
+        "technique": "deterministic simulation: operation histories on a value pool shared by simulated caller threads; snapshot oracle after every step + race detector",
+        "level_text": "Seeded operation histories (length up to 40, fan-out forced) of the collection-producing operations named in the property, applied to values produced earlier in "
+                      "the same history; every earlier value is re-read through the environment and compared with its canonical snapshot after every operation. Half of the runs are "
+                      "sequential (empty schedule space: the honest scope note of DESIGN.md §5.5 applies), half run 2-4 simulated caller threads that extend the same parents under "
+                      "a seeded schedule, with the Go race detector on the same tapes.",
+        "level_note": "Trusts the simulator, the canonical printer and ThreadSanitizer. No model of what an operation should return is used (that is C13).",
+        "rule": "one run = one seeded tape: 8 seed values (reader-built vector and quoted list, conj/range results with spare capacity, nested map, set, vec of a quoted list) and "
+                "3-40 operations from 35 kinds (conj, concat, cons, assoc, dissoc, subvec, rest, vec, seq, take/drop families, merge, rename-keys, with-meta, assoc-in, update, update-in, "
+                "apply, map, quasiquote splices, closures, macros), parents chosen with a bias to re-extend the previous parent. non-trivial = some parent extended at least twice; "
+                "distinct = distinct (operation sequence, interleaving) hash",
+        "assumptions": COMMON_ASSUMPTIONS + ["registration-time mutation of _PACKAGES_ by call.Call is outside the statement (not a builtin, special form, macro expansion or splice)"],
+        "must_hit": ["form:threads=1", "form:threads=2", "snapshot_comparisons"],
+        "race": True, "race_share": 0.35,
+    },
 }
